@@ -393,7 +393,7 @@ PROPERTIES = {
             {"name": "asan", "crate": "desmon", "cmd": "c20", "mode": "asan", "tiers": T, "args": {"thorough": ["--budget", "1500"]},
              "timeout": {"thorough": 3600}, "counter_prefix": "asan_"},
             {"name": "miri", "crate": "desmon", "cmd": "c20", "mode": "miri", "tiers": T, "shards": {"thorough": 16},
-             "args": {"thorough": ["--budget", "3", "small=1"]}, "timeout": {"thorough": 5400}, "counter_prefix": "miri_"},
+             "args": {"thorough": ["--budget", "8", "small=1"]}, "timeout": {"thorough": 5400}, "counter_prefix": "miri_"},
         ],
         "floor": {
             "quick": {"tokens_created": 500000, "stops_event_limit": 20000, "stops_time_limit": 1000, "stops_completed": 2000, "stops_error_exit": 2000,
